@@ -327,8 +327,28 @@ json_get_string(const std::string& doc, const std::string& key, std::string& out
 }
 
 // ---------------------------------------------------------------- execution
+static Result execute_once(const Harness& h, const Plan& p);
+
+// The first plan a process executes is executed twice and the first result thrown away: STIR (and libstdc++) have
+// process-wide one-time initialisations (function-local statics, registries, look-up tables).  Their memory accesses are yield
+// points of the simulated scheduler and count towards the single-thread yield estimate that PCT's change points are drawn
+// from, so without this the schedule of a plan would depend on whether it is the first plan of its process (as in a
+// fresh-process replay) or a later one (as in a worker).  After the throw-away execution every initialisation this plan
+// can trigger has happened, whatever the process did before.
 Result
 execute(const Harness& h, const Plan& p)
+{
+  static bool warmed_up = false;
+  if (!warmed_up)
+    {
+      warmed_up = true;
+      (void)execute_once(h, p);
+    }
+  return execute_once(h, p);
+}
+
+static Result
+execute_once(const Harness& h, const Plan& p)
 {
   g = Ctx();
   io::reset();
